@@ -500,6 +500,7 @@ META = dict(
 )
 
 MANIFEST_ENTRY = dict(
+    category='model_checking',
     engine='E3',
     technique='protocol extraction from the real lock code + SMT: Houdini-inferred inductive invariant (z3) establishes mutual exclusion for unbounded schedules of k contenders; z3 BMC refutes with a schedule replayed on the real module with real flock',
     design_ref='DESIGN.md 2.3, 3 C07',
